@@ -6,5 +6,6 @@ CONSTANTS
   ReleaseClears = TRUE
   PutOnReturn = FALSE
   FailPuts = 1
+  UseAfterRelease = FALSE
 INVARIANT Safety
 CHECK_DEADLOCK FALSE
